@@ -16,7 +16,7 @@
 //! output lines: {"type":"divergence",...} {"type":"witness",...} {"type":"summary",...}
 
 use bytes::Bytes;
-use rtcverif::{NdjsonOut, Rng, read_ndjson};
+use rtcverif::{Rng, read_ndjson};
 use rustrtc::media::frame::{AudioFrame, MediaKind, MediaSample};
 use rustrtc::media::track::{
     MediaStreamTrack, SampleStreamSource, SampleStreamTrack, VerifSourceProbe, sample_track,
@@ -25,7 +25,7 @@ use rustrtc::media::MediaError;
 use serde_json::{Value, json};
 use std::cell::RefCell;
 use std::collections::{BTreeMap, HashMap};
-use std::sync::atomic::{AtomicBool, AtomicI64, Ordering};
+use std::sync::atomic::{AtomicBool, AtomicI64, AtomicU64, Ordering};
 use std::sync::{Arc, Condvar, Mutex};
 use std::task::{Context, Poll, Wake, Waker};
 use std::time::{Duration, Instant};
@@ -33,6 +33,31 @@ use std::time::{Duration, Instant};
 const C: i64 = 100;
 const S: i64 = 200;
 const STEP_DEADLINE: Duration = Duration::from_secs(30);
+
+/// ndjson writer that can be flushed after a divergence (a later crash of the code under test must not lose it)
+struct NdjsonOut {
+    w: std::io::BufWriter<std::fs::File>,
+}
+impl NdjsonOut {
+    fn create_local(path: &str) -> Self {
+        if let Some(p) = std::path::Path::new(path).parent() {
+            let _ = std::fs::create_dir_all(p);
+        }
+        NdjsonOut { w: std::io::BufWriter::new(std::fs::File::create(path).unwrap_or_else(|e| panic!("create {path}: {e}"))) }
+    }
+    fn push(&mut self, v: &Value) {
+        use std::io::Write;
+        serde_json::to_writer(&mut self.w, v).expect("write");
+        self.w.write_all(b"\n").expect("write");
+    }
+    fn flush(&mut self) {
+        use std::io::Write;
+        self.w.flush().expect("flush");
+    }
+    fn finish(mut self) {
+        self.flush();
+    }
+}
 
 // ------------------------------------------------------------------------------------------ baton
 
@@ -192,7 +217,7 @@ fn frame_plain(id: i64, nonce: u64, seed: u64) -> AudioFrame {
         clock_rate: 48_000,
         data: Bytes::from(payload(id, nonce, seed)),
         sequence_number: Some(id as u16),
-        payload_type: Some(96 + (id / 10) as u8),
+        payload_type: Some(96u8.wrapping_add((id / 10) as u8)),
         marker: id % 2 == 1,
         ..Default::default()
     }
@@ -633,6 +658,10 @@ const FIELDS: [(&str, &str); 13] = [
 
 fn main() {
     let args: Vec<String> = std::env::args().collect();
+    if args.len() >= 4 && args[1] == "stress" {
+        stress_main(&args);
+        return;
+    }
     if args.len() < 3 {
         eprintln!("usage: ring <plan.ndjson> <out.ndjson> [i/n]");
         std::process::exit(2);
@@ -648,7 +677,7 @@ fn main() {
     rustrtc::verif::set_enabled(true);
 
     let plan = read_ndjson(&args[1]);
-    let mut out = NdjsonOut::create(&args[2]);
+    let mut out = NdjsonOut::create_local(&args[2]);
     let progress_path = format!("{}.progress", args[2]);
     let mut cfg: Option<Cfg> = None;
     let mut edges: Vec<(i64, Value)> = Vec::new();
@@ -742,8 +771,14 @@ fn main() {
                         break;
                     }
                 }
-                // end of the behaviour: consumer finished with EOS, or sleeps for good where the model says so
-                let end_ok = !failed;
+                if failed {
+                    // the real objects left the model: nothing of this scenario runs any further (its threads stay
+                    // parked and are leaked) -- free-running code that already diverged could corrupt the process
+                    out.flush();
+                    std::mem::forget(run);
+                    continue;
+                }
+                let end_ok = true;
                 let (live, rec, stuck) = run.teardown(end_ok);
                 if end_ok {
                     if live != 0 {
@@ -821,7 +856,13 @@ fn main() {
                 let woken = run.wk.0.load(Ordering::SeqCst);
                 let race = run.race.clone();
                 let complete = followed == steps.len();
-                let (live, rec, _stuck) = run.teardown(complete);
+                let (live, rec, _stuck) = if complete || !race.is_empty() {
+                    run.teardown(complete)
+                } else {
+                    let rec = run.sh.received.lock().unwrap().clone();
+                    std::mem::forget(run); // diverged from the witness: leave its threads parked
+                    (-1, rec, 0)
+                };
                 out.push(&json!({"type":"witness","id":line["id"],"followed":followed,"of":steps.len(),"complete":complete,
                     "stopped":stopped,"labels":labels,"closed":snap.source_closed,"ended":snap.ended,"head":snap.head as i64,
                     "tail":snap.tail as i64,"woken":woken,"race":race,"live_after_teardown":live,
@@ -837,3 +878,243 @@ fn main() {
     let _ = std::fs::remove_file(&progress_path);
 }
 
+
+// ------------------------------------------------------------------------------------------ stress
+// Binding T: free-running threads (no baton), call start / end logged with one process-wide
+// sequence counter; the log is validated by spec/Trace_Ring.tla.
+
+static SEQ: AtomicU64 = AtomicU64::new(1);
+
+struct Log {
+    rows: Vec<(u64, Value)>,
+}
+impl Log {
+    fn new() -> Self {
+        Log { rows: Vec::with_capacity(256) }
+    }
+    fn ev(&mut self, v: Value) {
+        let s = SEQ.fetch_add(1, Ordering::SeqCst);
+        self.rows.push((s, v));
+    }
+}
+
+struct ParkWaker(std::thread::Thread);
+impl Wake for ParkWaker {
+    fn wake(self: Arc<Self>) {
+        self.0.unpark();
+    }
+    fn wake_by_ref(self: &Arc<Self>) {
+        self.0.unpark();
+    }
+}
+
+fn jitter(rng: &mut Rng) {
+    match rng.below(8) {
+        0 => std::thread::yield_now(),
+        1 => {
+            for _ in 0..rng.below(200) {
+                std::hint::spin_loop();
+            }
+        }
+        2 => std::thread::sleep(Duration::from_micros(rng.below(30))),
+        _ => {}
+    }
+}
+
+fn stress_one(sc: &Value, idx: u64, seed: u64, out: &mut NdjsonOut) -> Result<(), String> {
+    let cap = sc["cap"].as_u64().unwrap() as usize;
+    let nprod = sc["nprod"].as_u64().unwrap() as i64;
+    let shared = sc["shared"].as_bool().unwrap();
+    let stop = sc["stop"].as_bool().unwrap();
+    let keep = sc["keep"].as_bool().unwrap();
+    let mix = sc["mix"].as_str().unwrap().to_string();
+    let nops = sc["ops"].as_u64().unwrap_or(12);
+    let nonce = idx.wrapping_mul(0x9E37_79B9) ^ seed;
+    let live = Arc::new(AtomicI64::new(0));
+    let (source, track, _fb) = sample_track(MediaKind::Audio, cap);
+    let mut handles: Vec<Handle> = Vec::new();
+    if shared {
+        let a = Arc::new(source);
+        for _ in 0..nprod {
+            handles.push(Handle::Arc(a.clone()));
+        }
+    } else {
+        for _ in 1..nprod {
+            handles.push(Handle::Own(source.clone()));
+        }
+        handles.push(Handle::Own(source));
+    }
+    let mut head = Log::new();
+    head.ev(json!({"ev":"reset","cap":cap,"nsend": if shared {1} else {nprod},"arcs": if shared {nprod} else {0},"scenario":idx,"cfg":sc}));
+    let barrier = Arc::new(std::sync::Barrier::new(nprod as usize + 1 + stop as usize));
+    let cutoff = Arc::new(AtomicBool::new(false));
+    let mut joins: Vec<std::thread::JoinHandle<(Log, Option<Handle>)>> = Vec::new();
+    for (pi, h) in handles.into_iter().enumerate() {
+        let p = pi as i64 + 1;
+        let (b, live, mix) = (barrier.clone(), live.clone(), mix.clone());
+        let keep_this = keep && p == 1;
+        joins.push(std::thread::spawn(move || {
+            let mut rng = Rng(seed ^ nonce ^ (p as u64) << 32);
+            let mut log = Log::new();
+            let mut h = Some(h);
+            let mut k = 0i64;
+            b.wait();
+            for _ in 0..nops {
+                jitter(&mut rng);
+                let op = match mix.as_str() {
+                    "send" => 0,
+                    "try" => 1,
+                    "many" => 2,
+                    "clone" => [0, 0, 1, 3][rng.below(4) as usize],
+                    _ => [0, 0, 1, 1, 2][rng.below(5) as usize],
+                };
+                match op {
+                    0 | 1 => {
+                        k += 1;
+                        let id = p * 1000 + k;
+                        let s = frame_counted(id, nonce, seed, &live);
+                        log.ev(json!({"ev":"send_start","th":p,"kind": if op == 0 {"send"} else {"try"},"ids":[id]}));
+                        let r = if op == 0 { h.as_ref().unwrap().src().send(s) } else { h.as_ref().unwrap().src().try_send(s) };
+                        log.ev(json!({"ev":"send_end","th":p,"res":ret_of(r)}));
+                    }
+                    2 => {
+                        let (a, b2) = (p * 1000 + k + 1, p * 1000 + k + 2);
+                        k += 2;
+                        let v = vec![frame_counted(a, nonce, seed, &live), frame_counted(b2, nonce, seed, &live)];
+                        log.ev(json!({"ev":"send_start","th":p,"kind":"many","ids":[a, b2]}));
+                        let r = h.as_ref().unwrap().src().send_many(v);
+                        log.ev(json!({"ev":"send_end","th":p,"res":ret_of(r)}));
+                    }
+                    _ => {
+                        log.ev(json!({"ev":"clone_start","th":p}));
+                        let n = Handle::Own(h.as_ref().unwrap().src().clone());
+                        log.ev(json!({"ev":"clone_end","th":p}));
+                        let old = h.replace(n).unwrap();
+                        let kind = if matches!(old, Handle::Arc(_)) { "arc" } else { "own" };
+                        log.ev(json!({"ev":"drop_start","th":p,"kind":kind}));
+                        drop(old);
+                        log.ev(json!({"ev":"drop_end","th":p}));
+                    }
+                }
+            }
+            if keep_this {
+                return (log, h);
+            }
+            jitter(&mut rng);
+            let old = h.take().unwrap();
+            let kind = if matches!(old, Handle::Arc(_)) { "arc" } else { "own" };
+            log.ev(json!({"ev":"drop_start","th":p,"kind":kind}));
+            drop(old);
+            log.ev(json!({"ev":"drop_end","th":p}));
+            (log, None)
+        }));
+    }
+    if stop {
+        let (b, t) = (barrier.clone(), track.clone());
+        joins.push(std::thread::spawn(move || {
+            let mut rng = Rng(seed ^ nonce ^ 0x5151);
+            let mut log = Log::new();
+            b.wait();
+            for _ in 0..rng.below(40) {
+                jitter(&mut rng);
+            }
+            log.ev(json!({"ev":"stop_start","th":200}));
+            t.stop();
+            log.ev(json!({"ev":"stop_end","th":200}));
+            (log, None)
+        }));
+    }
+    let cons = {
+        let (b, t, cutoff) = (barrier.clone(), track.clone(), cutoff.clone());
+        std::thread::spawn(move || {
+            let mut rng = Rng(seed ^ nonce ^ 0xC0C0);
+            let mut log = Log::new();
+            let waker = Waker::from(Arc::new(ParkWaker(std::thread::current())));
+            let mut cx = Context::from_waker(&waker);
+            b.wait();
+            'calls: loop {
+                jitter(&mut rng);
+                log.ev(json!({"ev":"recv_start"}));
+                let mut fut = t.recv();
+                loop {
+                    // a poll that starts after the cut-off (= after every other thread finished) and is still
+                    // Pending is logged as such; the trace spec accepts it only for an empty, open, unstopped queue
+                    let cut = cutoff.load(Ordering::SeqCst);
+                    match fut.as_mut().poll(&mut cx) {
+                        Poll::Ready(Ok(sample)) => {
+                            let (id, same) = identify(&sample, nonce, seed);
+                            drop(sample);
+                            log.ev(json!({"ev":"recv_end","res":"ok","id": if same {id} else {-id - 1}}));
+                            continue 'calls;
+                        }
+                        Poll::Ready(Err(MediaError::EndOfStream)) => {
+                            log.ev(json!({"ev":"recv_end","res":"eos"}));
+                            break 'calls;
+                        }
+                        Poll::Ready(Err(e)) => {
+                            log.ev(json!({"ev":"recv_end","res":ret_of(Err(e))}));
+                            break 'calls;
+                        }
+                        Poll::Pending => {
+                            if cut {
+                                log.ev(json!({"ev":"recv_end","res":"pending"}));
+                                break 'calls;
+                            }
+                            std::thread::park_timeout(Duration::from_millis(5));
+                        }
+                    }
+                }
+            }
+            log
+        })
+    };
+    let mut logs = vec![head];
+    let mut kept = Vec::new();
+    for j in joins {
+        match j.join() {
+            Ok((lg, h)) => {
+                logs.push(lg);
+                if let Some(h) = h {
+                    kept.push(h);
+                }
+            }
+            Err(_) => return Err("a producer thread panicked".into()),
+        }
+    }
+    cutoff.store(true, Ordering::SeqCst);
+    let t0 = Instant::now();
+    while !cons.is_finished() {
+        if t0.elapsed() > Duration::from_secs(60) {
+            return Err("consumer thread did not finish".into());
+        }
+        std::thread::sleep(Duration::from_micros(200));
+    }
+    logs.push(cons.join().map_err(|_| "consumer thread panicked".to_string())?);
+    drop(kept);
+    drop(track);
+    let mut tail = Log::new();
+    tail.ev(json!({"ev":"teardown","live":live.load(Ordering::SeqCst)}));
+    logs.push(tail);
+    let mut all: Vec<(u64, Value)> = logs.into_iter().flat_map(|l| l.rows).collect();
+    all.sort_by_key(|r| r.0);
+    for (s, mut v) in all {
+        v["seq"] = json!(s);
+        out.push(&v);
+    }
+    Ok(())
+}
+
+fn stress_main(args: &[String]) {
+    // ring stress <scenarios.ndjson> <trace.ndjson>
+    let scen = read_ndjson(&args[2]);
+    let mut out = NdjsonOut::create_local(&args[3]);
+    let seed = Rng::from_env().next();
+    rtcverif::quiet_panics();
+    for (i, sc) in scen.iter().enumerate() {
+        if let Err(e) = stress_one(sc, i as u64, seed, &mut out) {
+            eprintln!("stress scenario {i}: {e}");
+            std::process::exit(3);
+        }
+    }
+    out.finish();
+}
